@@ -193,6 +193,26 @@ fn run_kind_piped(ctx: &Ctx, kind: u8, contents: &[Vec<u8>], piped: Option<usize
     }
 }
 
+/// The joined-file run of kind 2 again, in the same process: the joined file (same name) gets other content and, if
+/// the file system lets us, the modification time it had before.
+fn run_joined_replaced(ctx: &Ctx, joined: &[u8], keep_mtime: bool) -> Result<Observed, Failure> {
+    let jpath = ctx.file("joined.txt");
+    let before = std::fs::metadata(&jpath).and_then(|m| m.modified()).ok();
+    write_file(&jpath, joined);
+    if let (true, Some(m)) = (keep_mtime, before) {
+        if let Ok(f) = std::fs::OpenOptions::new().write(true).open(&jpath) {
+            let _ = f.set_modified(m);
+        }
+    }
+    let q = format!("SELECT l FROM t INNER JOIN u::{} ON t.k = u.k", crate::sql::quote(&jpath.to_string_lossy()));
+    let tables = build_tables(DEF_JOIN).map_err(|e| Failure::new("panic", e))?;
+    let statement = parse_statement(&q).map_err(|e| Failure::new("panic", e))?;
+    let files = scratch_files(ctx, "in", &[b"m\n".to_vec()]);
+    let out = run_batch(&tables, &statement, &files, RunOptions::default()).map_err(|e| Failure::new("panic", e))?;
+    let lines = decode_strings(&out, "l").map_err(|e| Failure::new("undecodable-output", e))?;
+    Ok(Observed { lines, count: None, errored: out.result.is_err(), total_lines: out.total_lines })
+}
+
 fn admitted(kind: u8, line: &[u8]) -> Option<Vec<u8>> {
     if kind == 3 {
         line.strip_prefix(b"keep:").map(|r| r.to_vec())
@@ -274,7 +294,7 @@ impl Property for C12 {
          statement kinds: SELECT input, COUNT(*)+ARRAY_AGG(input), a join that loads the bytes as the joined file, a selective table, the queried side of an OUTER JOIN whose joined file (empty, an empty line, a line that is no row, a row with another key) has no partner for any line. Oracle: model line splitter (split at LF, one CR before it \
          tolerated either way - but the same way in the queried files and in the joined file -, unterminated last line included): the query sees the lines of file 1, then file 2, ... exactly once in order; total_lines = number of lines; a run over several \
          LF-terminated files = a run over their concatenation; after an invalid line either every later well-formed line is still processed or an error is reported. Per case, for <= 6 lines, \
-         all 2^(n-1) splits into files are tried. In a fifth of the cases one of the queried files is, in an additional run, delivered through a named pipe (a handle without a size that cannot be repositioned - --stdin fed by a pipe, a FIFO, <(...)): same model, and the same result as from the regular file. Non-trivial: >= 2 files, or a final line without newline, or a CRLF line, or an invalid line followed by >= 1 valid line; distinct by case."
+         all 2^(n-1) splits into files are tried. In a fifth of the cases one of the queried files is, in an additional run, delivered through a named pipe (a handle without a size that cannot be repositioned - --stdin fed by a pipe, a FIFO, <(...)): same model, and the same result as from the regular file. The joined-file kind is run twice more in the same process after the joined file (same name) was replaced by its lines in reverse order (same length), with and without its old modification time: the lines of the new file arrive. Non-trivial: >= 2 files, or a final line without newline, or a CRLF line, or an invalid line followed by >= 1 valid line; distinct by case."
             .to_string()
     }
 
@@ -419,6 +439,19 @@ impl Property for C12 {
                     "cr-handling-differs: queried vs joined file",
                     format!("the same bytes give different lines when read as the queried file and as the joined file; first difference at line {}: queried {:?}, joined {:?}", first, queried.lines.get(first), joined.lines.get(first)),
                 ));
+            }
+        }
+
+        // 6. a second run in the same process after the joined file was replaced by other content of the same length
+        //    (its lines in reverse order), with and without its old modification time: the lines of the new file arrive
+        let flat_all: Vec<LineSpec> = case.files.iter().flatten().cloned().collect();
+        if kind == 2 && !has_invalid && flat_all.len() >= 2 && flat_all.iter().all(|l| l.term != Term::None) && flat_all.first().map(|l| l.bytes()) != flat_all.last().map(|l| l.bytes()) {
+            obs.label("joined-file-replaced");
+            let reversed: Vec<LineSpec> = flat_all.iter().rev().cloned().collect();
+            for keep_mtime in [true, false] {
+                let again = run_joined_replaced(ctx, &file_bytes(&reversed), keep_mtime)?;
+                obs.inner += 1;
+                compare(kind, &[reversed.clone()], &again).map_err(|f| Failure::new(format!("joined-file-replaced: {}", f.signature), format!("second run in the same process, joined file replaced by its lines in reverse order (same length{})\n  {}", if keep_mtime { ", modification time restored" } else { "" }, f.message)))?;
             }
         }
 
